@@ -81,6 +81,8 @@ class NotCovered(Exception):
 
 def unit_for(t: pydsdl.CompositeType, on: str, variant: str) -> codec.TypeUnit:
     root = _CTX["root"]
+    if is_cpp(on) and ser_only(t):
+        raise NotCovered("255-element containers through the C++ mirror harness are outside the budget (C and Python serializers only)")
     if is_cpp(on):
         from llsym import cppunit
         if cppunit.has_bool_array(t):
@@ -96,7 +98,14 @@ def unit_for(t: pydsdl.CompositeType, on: str, variant: str) -> codec.TypeUnit:
     return tu
 
 
+def ser_only(t: pydsdl.CompositeType) -> bool:
+    """corpus types named S_*: serialization queries only (see llsym/corpus.py)"""
+    return t.short_name.startswith("S_")
+
+
 def des_lengths(t: pydsdl.CompositeType, tier: str) -> typing.List[int]:
+    if ser_only(t):
+        return []
     ext = codec.extent_bytes(t)
     mx = codec.max_bytes(t)
     if tier == "quick":
